@@ -943,6 +943,28 @@ fn mutants(base: &[String], target: usize) -> Vec<(&'static str, Vec<String>)> {
 pub fn cmd_trace(kv: &HashMap<String, String>) -> i32 {
     let prop = kv.get("prop").cloned().unwrap_or_else(|| "C17".into());
     let prefix = prop.to_lowercase();
+    if let Some(file) = kv.get("replay") {
+        // re-run the recorded history (the script section of a replay file written by this engine)
+        let txt = std::fs::read_to_string(file).expect("replay file");
+        let mut in_script = false;
+        let mut ops: Vec<Op> = Vec::new();
+        for l in txt.lines() {
+            if l.starts_with("# --- history script") { in_script = true; continue; }
+            if l.starts_with("# --- translated trace") { break; }
+            if in_script && !l.starts_with('#') && !l.trim().is_empty() { ops.push(Op::parse(l)); }
+        }
+        if ops.is_empty() {
+            println!("no history script in {}", file);
+            return 2;
+        }
+        let h = History { label: "replay".into(), ops };
+        let o = run_history(&h, &prefix, "replay", &RunOpts { index: 0, dump_dir: None, mutate: false, sabotage: None });
+        println!("replayed history: {} syncs judged, {} violation(s)", o.verdicts.len(), o.violations.len());
+        for (sig, detail, _) in &o.violations {
+            println!("violation {}: {}", sig, detail.chars().take(400).collect::<String>());
+        }
+        return if o.violations.is_empty() { 0 } else { 1 };
+    }
     let thorough = kv.get("tier").map(|t| t == "thorough").unwrap_or(false);
     let seed: u64 = kv.get("seed").and_then(|s| s.parse().ok()).unwrap_or(1);
     let n: usize = kv.get("n").and_then(|s| s.parse().ok()).unwrap_or(if thorough { 120 } else { 32 });
@@ -964,7 +986,21 @@ pub fn cmd_trace(kv: &HashMap<String, String>) -> i32 {
     let n_mutated: usize = kv.get("mutants").and_then(|s| s.parse().ok()).unwrap_or(if thorough { 12 } else { 6 });
     let t0 = std::time::Instant::now();
     let mut rng = Rng::new(seed ^ 0x7472_6163_65);
-    let hs: Vec<(usize, History)> = (0..n).map(|i| { let mut r = rng.fork(); (i, gen_history(&mut r, thorough, i)) }).collect();
+    let mut hs: Vec<(usize, History)> = (0..n).map(|i| { let mut r = rng.fork(); (i, gen_history(&mut r, thorough, i)) }).collect();
+    // corpus scripts (regression histories): every commit / rollback of the script is an armed sync
+    if let Some(c) = kv.get("corpus") {
+        if let Ok(rd) = std::fs::read_dir(c) {
+            let mut files: Vec<_> = rd.filter_map(|e| e.ok()).map(|e| e.path()).filter(|f| f.extension().map(|e| e == "script").unwrap_or(false)).collect();
+            files.sort();
+            for f in files {
+                let ops = crate::sys::script_from_text(&std::fs::read_to_string(&f).unwrap_or_default());
+                let ops: Vec<Op> = ops.into_iter().filter(|o| !matches!(o, Op::CheckAll { .. } | Op::Read(_))).collect();
+                let idx = 100_000 + hs.len();
+                hs.push((idx, History { label: format!("corpus {}", f.display()), ops: arm_wrap(ops) }));
+            }
+        }
+    }
+    let n = hs.len();
     let queue = std::sync::Arc::new(std::sync::Mutex::new(hs));
     let results = std::sync::Arc::new(std::sync::Mutex::new(Vec::new()));
     let mut handles = Vec::new();
